@@ -99,6 +99,11 @@ def detectwt(d, props):
             res[p] = {"exit": rc, "lines": lines[:12]}
     finally:
         sh("git checkout -- .", cwd=wt)
+    rc, head = sh("git rev-parse --short HEAD", cwd=wt)
+    for p in res:
+        res[p]["mode"] = "patch applied to the scratch worktree %s (HEAD %s), check run with VERIF_REPO pointing at it" % (wt, head.strip())
+    if os.environ.get("SEED_WRITE_DETECT"):
+        json.dump(res, open(os.path.join(dst, "detect.json"), "w"), indent=1)
     return res
 
 
